@@ -10,6 +10,25 @@
 
 #include "stream.h"
 
+/* decoder may need more scratch space than a filled input queue has left,
+ * only the stream can supply it for its own buffer */
+static int streamRecv(MPT_STRUCT(stream) *srm)
+{
+	int ret;
+	
+	while ((ret = mpt_queue_recv(&srm->_rd)) == MPT_ERROR(MissingBuffer)) {
+		int flags = mpt_stream_flags(&srm->_info);
+		size_t avail = srm->_rd.data.max - srm->_rd.data.len;
+		
+		if (!(flags & MPT_STREAMFLAG(ReadBuf))
+		    || (flags & MPT_STREAMFLAG(ReadMap))
+		    || !mpt_queue_prepare(&srm->_rd.data, avail + 64)) {
+			break;
+		}
+	}
+	return ret;
+}
+
 /*!
  * \ingroup mptStream
  * \brief dispatch next message
@@ -31,7 +50,7 @@ extern int mpt_stream_dispatch(MPT_STRUCT(stream) *srm, int (*cmd)(void *, const
 	
 	/* use existing or new message */
 	if (srm->_rd._state.data.msg < 0) {
-		if ((ret = mpt_queue_recv(&srm->_rd)) < 0) {
+		if ((ret = streamRecv(srm)) < 0) {
 			return ret;
 		}
 		if (!ret) {
@@ -54,7 +73,7 @@ extern int mpt_stream_dispatch(MPT_STRUCT(stream) *srm, int (*cmd)(void *, const
 		ret &= MPT_EVENTFLAG(Flags);
 	}
 	/* further message on queue */
-	if (mpt_queue_recv(&srm->_rd) > 0) {
+	if (streamRecv(srm) > 0) {
 		ret |= MPT_EVENTFLAG(Retry);
 	}
 	return ret;
